@@ -262,13 +262,24 @@ CHECK = {
         "text": "SYNTACTIC TIE: toECEF and the whole of toWGS84 (latitude loop included, as a fuelled fix) are re-translated from the clang AST of the current source into Gallina terms on every run (translate/srcfuns.py -> coq/gen/SrcFuns.v) and proved equal, over the reals, to the model functions the theorems are about. Coq theorems over the reals about a model of EarthEllipsoid/ECEFConverter: toECEF is foot point on the ellipsoid plus "
                 "h times the unit normal, the normal being parallel to the gradient of the ellipsoid's quadratic form; longitude "
                 "recovered exactly by atan2 on (-pi,pi]; the true latitude is a fixed point of the iteration body and the loop started "
-                "there stops at once; an exit with |delta|<=eps under a q-Lipschitz body is within q*eps/(1-q) of the fixed point; height "
-                "recovered from the exact latitude; result ranges; the pre-repair half-angle longitude is undefined exactly on the "
+                "there stops at once. LATITUDE LOOP: the body g(lat) = atan((Z/norm)/(1 - a e2 cos lat/(norm W))) is differentiated "
+                "(Coquelicot is_derive) wherever its denominator D is non-zero, |g'| <= e2 a/(sqrt(1-e2)(|p| - e2 a)) at every latitude, "
+                "the interval between the geocentric latitude atan(Z/norm) and the pole is invariant, contains the first guess and the "
+                "true latitude, has D in (0,1], and g is q-Lipschitz on it with q = 1.04 e2 <= 0.0104 (mean value theorem; for "
+                "|lat| <= 89.4 deg the bound is global in the iterate). Consequences on the near-Earth domain 0 < a <= 7e6 m, "
+                "0 <= e2 <= 1/100, -a/100 <= h <= 100 km, cos lat >= 1/600 (|lat| <= 89.904 deg; a superset of the property's domain): "
+                "toWGS84(toECEF(lat,lon,h)) returns within 7 passes (the C++ loop has no cap; the model's None = more than fuel passes), "
+                "longitude exact, |latitude error| <= q eps/(1-q) <= 1.1e-13 rad, |height error| <= 1 mm; and for an ARBITRARY Cartesian "
+                "point with |p| >= 0.98 a and |Z| <= 600 norm, toECEF(toWGS84(p)) reproduces X, Y exactly and Z within 1 mm. All over the "
+                "reals. Kept as _partial: the round trip on the wider domain 0 <= e2 < 1 and the abstract q-premise lemma. Result "
+                "ranges; the pre-repair half-angle longitude is undefined exactly on the "
                 "antimeridian ray. The model is tied to the source by running its binary64 instance against the compiled classes on "
                 "generated inputs and an mpmath oracle checks 1 mm / 1e-9 rad on the implementation's outputs.",
         "note": "Trusted: Coq kernel, standard real-number axioms, hand-written model tied by differential execution only, extraction, "
-                "float dictionary, harness, oracle. Convergence of the latitude iteration is proved only relative to a Lipschitz premise "
-                "(partial); float rounding and libm are observed, not proved.",
-        "technique": "Coq proof (real analysis, field/nra) + extracted-model correspondence run + mpmath property oracle",
+                "float dictionary, harness, oracle. Convergence, termination and accuracy of the latitude iteration are proved over the "
+                "reals on the near-Earth domain; float rounding, libm and termination of the binary64 loop are observed, not proved. "
+                "On the polar axis (norm = 0) the code divides by zero; closer to the axis than a e2 (43 km) the loop body is "
+                "discontinuous outside the invariant interval.",
+        "technique": "Coq proof (real analysis: Coquelicot derivative + mean value theorem, field/nra) + extracted-model correspondence run + mpmath property oracle",
     },
 }
